@@ -261,8 +261,10 @@ func verifHdrRequest(sc *verifHdrScn, rid, host string, rnd *rand.Rand) ([]byte,
 			named = append(named, [2]string{verifHdrCase(h.Name, variant), val})
 		}
 		if ln == "connection" {
-			// the header the Connection line nominates (the specification leaves its fate open)
+			// the headers the Connection lines nominate: hop-by-hop when the line naming them was really sent
+			// (an emptied line nominates nothing: then they are ordinary client headers that must arrive)
 			named = append(named, [2]string{"X-Verif-Nominated", "nom-" + rid})
+			named = append(named, [2]string{"x-verif-NOMINATED2", "nom2-" + rid})
 		}
 	}
 	pad := verifHdrPadding(rnd, sc.Pad, rid)
